@@ -110,7 +110,18 @@ fn run_schedule(sched: &[f64], ctl_histories: &[Vec<Ctl>], tms: &[Tm], rank0: u6
     let mut ents: Vec<Ent> = vec![];
     for (ci, _) in tms.iter().enumerate() {
         for h in ctl_histories {
-            let e = d.app.world.spawn((C::initial(), Animator::<C>::with_timeline(tls1[ci].clone()))).id();
+            // API variety: histories that start with Disable are spawned with `as_disabled()`, those
+            // that start with Reset through `Animator::new()` + `set_timeline`
+            let animator = match h.first() {
+                Some(Ctl::Disable) => Animator::<C>::with_timeline(tls1[ci].clone()).as_disabled(),
+                Some(Ctl::Reset) => {
+                    let mut a = Animator::<C>::new();
+                    a.set_timeline(tls1[ci].clone());
+                    a
+                }
+                _ => Animator::<C>::with_timeline(tls1[ci].clone()),
+            };
+            let e = d.app.world.spawn((C::initial(), animator)).id();
             ents.push(Ent { e, cfg: ci, ctl: h.clone(), on_t2: false, ended_events_in_run: 0, entered_ended_in_run: false });
         }
     }
